@@ -29,7 +29,15 @@ ORIGIN = contextvars.ContextVar('c14_origin', default=('expr', None))
 CUR_SUB = contextvars.ContextVar('c14_cur_sub', default=None)      # (Hx, sub dict, index) of the running public call
 TR_INDEX = {(t or ''): k for k, t in enumerate(TRANSFORMS)}
 LAT = [None, 0, 1, 7, 20, 50, 120]
+# End of a case: the harness waits until every submitter was answered and no driver call is in flight. The property
+# sets no bound on how long a queued value may wait (the writer task does a confirming main.update() pass after every
+# write - all ports are read, behind the global update lock shared with the polling loop and the other writer / eval
+# tasks - so a burst of 50-60 values on a hub with three 120 ms readers drains at ~1.8 s per value): the wait ends
+# DRAIN_S after the last sign of progress (a driver write entered or left, a submitter answered, a scripted op
+# finished), at most DRAIN_MAX_S after the last scripted op. A submitter that is never answered still shows: nothing
+# progresses any more and the oracle reports it.
 DRAIN_S = 90.0
+DRAIN_MAX_S = 3600.0
 # C14_NO_LAZY=1: no lazy (value-dependent suspension) write transforms - what stays silent on a tree without
 # fixes/C14-submit-order-lock.diff; function transforms with uniform suspension (MUL, ADD) are still exercised
 NO_LAZY = os.environ.get('C14_NO_LAZY') == '1'
@@ -242,7 +250,9 @@ class C14(Prop):
                    'instant at which the attribute is read); the model pins it: the instant the call gets the submit lock',
                    '"told so" = the submitter\'s transform_and_write_value call raises asyncio.QueueFull '
                    '(API: a non-2xx answer)',
-                   'an entry already taken by the writer task (waiting for the write lock) no longer counts as queued']
+                   'an entry already taken by the writer task (waiting for the write lock) no longer counts as queued',
+                   'the property bounds no waiting time: "never got an answer" = still unanswered 90 s (virtual) after '
+                   'the last driver write / answer / finished op of the case (at most 3600 s after the last scripted op)']
 
     # ---------------------------------------------------------------- set-up
     def setup(self):
@@ -333,6 +343,14 @@ class C14(Prop):
                      [0, 'api', 0, 108], [1, 'tr', 0, 8, 'attr'], [1, 'w', 0, 109], [1, 'w', 0, None],
                      [1, 'tr', 0, 0, 'attr'], [1, 'w', 0, 210], [1, 'seq', 0, [111, 212, 113], [0, 0, 0], 1],
                      [2, 'tr', 0, 6, 'attr'], [2, 'api', 0, 114]]},
+            # long drain (false alarm of a thorough run, replays C14-60087d3dd6d9 / C14-a2f2e41dbb16): 56 values queued
+            # within 7 ms on a port whose every write is followed by confirming update passes over three 120 ms readers
+            # (and by the writes of two dependent expression ports): ~2.1 s per value, the last submitter is answered
+            # ~124 s after its call - every value written in order, nobody dropped (default capacity)
+            {'cap': 16, 'poll': True, 'tick': 10,
+             'ports': [dict(reg, rlat=[None], wlat=[50], tr=4), dict(reg, rlat=[120], wlat=[7], expr=['add', 0, 6]),
+                       dict(reg, rlat=[120], wlat=[0], tr=3, expr=['ref', 0]), dict(reg, rlat=[120], wlat=[7], tr=1)],
+             'ops': [[i // 8, 'api' if i % 3 == 0 else 'w', 0, 101 + i + (0 if i % 2 else 100)] for i in range(56)]},
             # overflow: burst of 5 on cap 2 during a slow write: drop oldest, submitter told
             {'cap': 2, 'poll': True, 'tick': 50, 'ports': [dict(reg)],
              'ops': [[0, 'w', 0, 10], [1, 'api', 0, 11], [2, 'w', 0, 12], [3, 'api', 0, 13], [4, 'w', 0, 14]]},
@@ -661,9 +679,20 @@ class C14(Prop):
                 if op[1] != 'reset':      # a reset() may wait very long for the read guard (it re-tests once a second
                     waited.append(tk)     # while the polling loop reads almost continuously): not waited for
             # drain: every op finished, every loader finished, every submitter answered, no driver call in flight
+            def progress_mark():
+                return (sum(1 for t in waited + loaders if t.done()), sum(len(hx.subs) for hx in hxs),
+                        sum(1 for hx in hxs for s in hx.subs if s['res'] is not None),
+                        sum(hx.nwrites for hx in hxs), tuple(hx.win for hx in hxs))
+
+            hard_deadline = self.loop.time() + DRAIN_MAX_S
             deadline = self.loop.time() + DRAIN_S
+            mark = progress_mark()
             seq_busy = True
-            while self.loop.time() < deadline:
+            while self.loop.time() < min(deadline, hard_deadline):
+                m = progress_mark()
+                if m != mark:
+                    mark = m
+                    deadline = self.loop.time() + DRAIN_S
                 busy = any(not t.done() for t in waited + loaders)
                 busy = busy or any(s['res'] is None for hx in hxs for s in hx.subs)
                 busy = busy or any(hx.win for hx in hxs)     # (reads of the polling loop never stop)
@@ -678,7 +707,7 @@ class C14(Prop):
             rec.frozen = True
             events = rec.events
             snap = [[dict(sb) for sb in hx.subs] for hx in hxs]      # before the clean-up cancels what is left
-            if self.loop.time() >= deadline and os.environ.get('C14_DEBUG'):
+            if self.loop.time() >= min(deadline, hard_deadline) and os.environ.get('C14_DEBUG'):
                 print('DRAIN TIMEOUT', [t for t in waited + loaders if not t.done()],
                       [hx.win for hx in hxs], [[s for s in hx.subs if s['res'] is None] for hx in hxs])
         finally:
